@@ -373,7 +373,9 @@ func c06crossRename(w *c06world, st fsx.Step, p1, rem1, p2, rem2 string, ra fsx.
 		}
 	}
 	dstSit := fsx.PathSit(w.b[p2], rem2)
-	sig := func(what string) string { return fmt.Sprintf("C06|Rename|cross-mount,src=%s,dst=%s|%s", kind, dstSit, what) }
+	sig := func(what string) string {
+		return fmt.Sprintf("C06|Rename|cross-mount,src=%s,dst=%s|%s", kind, dstSit, what)
+	}
 	if !ra.OK() {
 		// must have left everything unchanged: A twins still equal the (untouched) B twins
 		if k, d := w.compare(); k != "" {
